@@ -216,6 +216,15 @@ macro_rules! fmt_path {
                     s.push_str(&format!(" {}", n.key()));
                 }
                 s.push_str(&format!(" len {}", p.len()));
+                // the other accessors of Path
+                let fe = p.first_edge().map(|e| fmt_edge(e)).unwrap_or_default();
+                let le = p.last_edge().map(|e| fmt_edge(e)).unwrap_or_default();
+                let f_n = p.first_node().map(|n| format!("{}", n.key())).unwrap_or_default();
+                let l_n = p.last_node().map(|n| format!("{}", n.key())).unwrap_or_default();
+                let i0 = if p.len() > 1 { fmt_edge(&p[0]) } else { String::new() };
+                let ve = p.to_vec_edges().iter().map(|e| fmt_edge(e)).collect::<Vec<_>>().join("");
+                let ni = p.iter_nodes().count();
+                s.push_str(&format!(" acc {} {} {} {} {} {} {}", fe, le, f_n, l_n, i0, ve, ni));
                 s
             }
         }
